@@ -26,7 +26,8 @@ func init() {
 
 func c04Units(ctx *core.Ctx) []core.Unit {
 	points := func(seed int64, thorough bool) []*big.Int {
-		ps := []*big.Int{bi(0), bi(1), bi(2), bi(127), bi(128), bi(254), bi(255), bi(256), bi(257), bi(258), pow2(64),
+		rinv := new(big.Int).ModInverse(pow2(256), bigR) // k*2^-256: raw Montgomery limbs look like the domain point k
+		ps := []*big.Int{bi(0), bi(1), bi(2), bi(127), bi(128), bi(254), bi(255), bi(256), bi(257), bi(258), pow2(64), new(big.Int).Set(rinv), new(big.Int).Mod(new(big.Int).Mul(rinv, bi(200)), bigR),
 			new(big.Int).Sub(bigR, bi(2)), new(big.Int).Sub(bigR, bi(1)), prfR(seed, "c04", 0), prfR(seed, "c04", 1)}
 		if thorough {
 			seen := map[string]bool{}
